@@ -9,7 +9,7 @@ every id (get_color and palette accessors) is compared with the spec's expectati
 import json
 
 import sgr
-from vcheck import Machinery, pmap
+from vcheck import Machinery, pmap, guarded
 
 NAMES = {'BLACK': 0, 'RED': 1, 'GREEN': 2, 'YELLOW': 3, 'BLUE': 4, 'MAGENTA': 5, 'CYAN': 6, 'WHITE': 7}
 
@@ -87,6 +87,7 @@ def _nest(flat):
     return out
 
 
+@guarded(lambda m: (m, []))
 def replay_history(job):
     hist, no_color, nested = job
     from ak.color import ColorsConfig, Palette, ConfColor
@@ -178,6 +179,7 @@ def replay_history(job):
     return None, []
 
 
+@guarded(lambda m: (m, []))
 def replay_global(job):
     """the same history with the configuration installed as the GLOBAL one and the palettes created as synced palettes:
     synced palettes (and ak.color.global_palette) must reflect the current state after every step, and after a NEW
